@@ -126,7 +126,7 @@ STYLES = ["sync", "blockfirst", "noack", "late", "trickle", "random", "random", 
 class C20(Prop):
     id = "C20"
     thorough_rounds = 3   # thorough tier: this many independently seeded rounds of the random generators (duplicates dropped)
-    modules = ["H3.Props.C20"]
+    modules = ["H3.Props.C20", "H3.Lemmas.GenAgreeQpack"]
     engines = ["dyn"]
     design_ref = "DESIGN.md section 7, C20"
     level_text = ("Lean theorems, unbounded, over an executable model of vas.rs / dynamic.rs / HeaderPrefix / Encoder::encode / "
